@@ -88,7 +88,8 @@ def cases(draw, tier):
             "diff": None}
     if draw(st.integers(0, 3)) == 0:
         n, m = len(spec["obs"]), len(spec["samp"])
-        k = draw(st.sampled_from(["value", "id", "order", "md", "type"]))
+        k = draw(st.sampled_from(["value", "ulp", "ulp", "id", "order", "md",
+                                  "type"]))
         d = {"kind": k, "axis": draw(ops.AX), "i": draw(st.integers(0, 7)),
              "j": draw(st.integers(0, 7)),
              "to": draw(st.sampled_from([0.0, 1.0, 7.5, -2.0]))}
@@ -134,6 +135,17 @@ def _mutate(spec, d):
         new = d["to"]
         if s["rows"][i][j] == new:
             new = new + 1.0
+        s["rows"][i][j] = new
+        return s
+    if k == "ulp":
+        # the smallest possible difference: one cell moved by one unit in
+        # the last place (a zero cell becomes the smallest subnormal)
+        import math
+        i, j = d["i"] % n, d["j"] % m
+        old = s["rows"][i][j]
+        new = math.nextafter(old, math.inf)
+        if new == old or new in (math.inf, -math.inf):
+            new = math.nextafter(old, -math.inf)
         s["rows"][i][j] = new
         return s
     if k == "id":
@@ -191,14 +203,27 @@ def _exports(t):
     return out
 
 
-def _queries(t, exact_sums=True):
+def _queries(t, exact_sums=True, order=0):
+    """Every per-ID / per-cell query.  `order` rotates which query family
+    touches the table first (an answer that depends on what was asked before
+    is exactly what the property forbids)."""
     q = {"obs": [str(i) for i in t.ids(axis="observation")],
          "samp": [str(i) for i in t.ids()]}
-    q["obs_data"] = [t.data(i, axis="observation").tolist()
-                     for i in t.ids(axis="observation")]
-    q["samp_data"] = [t.data(i, axis="sample").tolist() for i in t.ids()]
-    q["cells"] = [[float(t.get_value_by_ids(o, s)) for s in t.ids()]
-                  for o in t.ids(axis="observation")]
+
+    def cells():
+        q["cells"] = [[float(t.get_value_by_ids(o, s)) for s in t.ids()]
+                      for o in t.ids(axis="observation")]
+
+    def obs_data():
+        q["obs_data"] = [t.data(i, axis="observation").tolist()
+                         for i in t.ids(axis="observation")]
+
+    def samp_data():
+        q["samp_data"] = [t.data(i, axis="sample").tolist()
+                          for i in t.ids()]
+    fams = [cells, obs_data, samp_data]
+    for f in fams[order % 3:] + fams[:order % 3]:
+        f()
     q["obs_md"] = observe.md_list(t, "observation")
     q["samp_md"] = observe.md_list(t, "sample")
     if exact_sums:
@@ -242,6 +267,22 @@ def check(case, rec):
                 not observe.md_equal(snap["samp_md"], spec["samp_md"]):
             raise Violation("route-content", "route %d does not hold the "
                             "described content: %r" % (k, snap))
+
+    # per-ID / per-cell queries on *fresh* builds of every route, before
+    # anything else (== included) has touched them
+    fresh = [_build_route(spec, r) for r in case["routes"]]
+    order = len(case["access"]) + len(spec["obs"])
+    fq = [_queries(t, case.get("kind") != "wild", order + k)
+          for k, t in enumerate(fresh)]
+    dense_q = [[float(x) for x in row] for row in ref.tolist()]
+    for k, q_ in enumerate(fq):
+        if q_["cells"] != dense_q or q_["obs_data"] != dense_q or \
+                q_["samp_data"] != [list(c) for c in zip(*dense_q)]:
+            raise Violation("query-differs-from-content", "route %d "
+                            "(layout %r) answers %r, content is %r" %
+                            (k, lays[k], {x: q_[x] for x in
+                                          ("cells", "obs_data", "samp_data")},
+                             dense_q))
 
     # pairwise equality, before and after interleaved accessors
     pairs = [(i, j) for i in range(len(tabs)) for j in range(len(tabs))
@@ -293,6 +334,10 @@ def check(case, rec):
         rec.cls("diff:" + d["kind"])
         rec.nt()
         route_b = dict(case["routes"][-1])
+        # "subsample at full depth" is content preserving only for the
+        # integer content / vector totals it was drawn for
+        route_b["history"] = [o for o in route_b["history"]
+                              if o["op"] != "subsample_full"]
         if s2.get("type") is not None:
             # transpose() does not carry the table type, so the
             # "transpose twice" route is content preserving only when untyped
